@@ -53,6 +53,10 @@ theorem server_waits_without_locks : serverWaitsHolding = [] := by decide
 /-- every rpc2 codec of the client and the server is wrapped so that requests and responses are written one
     at a time (rpc2 writes responses under no lock, and its JSON encoder is not safe for concurrent use: D74) -/
 theorem rpc_writes_serialized : rpcCodecsUnserialized = [] := by decide
+/-- no mutex-guarded field of the client or the server is assigned while its mutex is held for reading only
+    (two readers may hold it at once: such an assignment is a data race, and an append made there loses elements) -/
+theorem client_no_write_under_read_lock : clientWritesUnderReadLock = [] := by decide
+theorem server_no_write_under_read_lock : serverWritesUnderReadLock = [] := by decide
 /-- every use of the server's monitor table is made under monitorMutex -/
 theorem server_guarded_fields_under_mutex : serverUnguarded = [] := by decide
 
